@@ -1,0 +1,19 @@
+//go:build verif
+
+// Contracts for govc (comment-only file; see /verif/DESIGN.md section 3).
+// Generated skeleton (tools/gen_zk_contracts.py): nil-safety of the verifier side for arbitrary decoded proofs.
+package zkmul
+
+//@ func (*Proof).IsValid
+//@   nopanic[C05]
+//@   inline
+//@   requires public.X != nil && public.Y != nil && public.C != nil && pkok(public.Prover)
+
+//@ func (*Proof).Verify
+//@   nopanic[C05]
+//@   requires group != nil && hash != nil && hash.h != nil && public.X != nil && public.Y != nil && public.C != nil && pkok(public.Prover)
+
+//@ func challenge
+//@   nopanic[C05]
+//@   inline
+//@   requires hash != nil && hash.h != nil && group != nil && public.X != nil && public.Y != nil && public.C != nil && pkok(public.Prover) && commitment != nil
